@@ -38,14 +38,29 @@ func (ex *Exec) load(p Val) Val {
 		if !ex.branch(inb) {
 			ex.targetPanic(fmt.Sprintf("runtime error: index out of range [?] with length %d", n))
 		}
-		var r *Term
-		for i := n - 1; i >= 0; i-- {
+		// runs of equal table entries become range tests
+		type run struct {
+			lo, hi int
+			val    *Term
+		}
+		var runs []run
+		for i := 0; i < n; i++ {
 			e := p.Arr[i].(*Term)
-			if r == nil {
-				r = e
+			if k := len(runs); k > 0 && runs[k-1].val.Val == e.Val {
+				runs[k-1].hi = i
 			} else {
-				r = Ite(Eq(idx, Const(idx.W, uint64(i))), e, r)
+				runs = append(runs, run{i, i, e})
 			}
+		}
+		r := runs[len(runs)-1].val
+		for k := len(runs) - 2; k >= 0; k-- {
+			var in *Term
+			if runs[k].lo == runs[k].hi {
+				in = Eq(idx, Const(idx.W, uint64(runs[k].lo)))
+			} else {
+				in = And(Cmp(OpULe, Const(idx.W, uint64(runs[k].lo)), idx), Cmp(OpULe, idx, Const(idx.W, uint64(runs[k].hi))))
+			}
+			r = Ite(in, runs[k].val, r)
 		}
 		return r
 	}
@@ -485,6 +500,19 @@ func (ex *Exec) index(x, idx Val) Val {
 }
 
 func (ex *Exec) strIndex(s Str, idx *Term) Val {
+	if !idx.IsConst() && len(s) > 0 && len(s) <= 512 {
+		// symbolic index into a string: ite chain (no fork) after the bounds check
+		n := len(s)
+		inb := Cmp(OpULt, idx, Const(idx.W, uint64(n)))
+		if !ex.branch(inb) {
+			ex.targetPanic(fmt.Sprintf("runtime error: index out of range [?] with length %d", n))
+		}
+		r := s[n-1]
+		for i := n - 2; i >= 0; i-- {
+			r = Ite(Eq(idx, Const(idx.W, uint64(i))), s[i], r)
+		}
+		return r
+	}
 	i := ex.concreteInt(idx, "string index")
 	if i < 0 || i >= int64(len(s)) {
 		ex.targetPanic(fmt.Sprintf("runtime error: index out of range [%d] with length %d", i, len(s)))
